@@ -219,7 +219,8 @@ class pCN(Sampler):
     def single_update(self, x_t, loglike_eval_t):
         # propose state
         xi = self.prior.sample(1).flatten()   # sample from the prior
-        x_star = np.sqrt(1-self.scale**2)*x_t + self.scale*xi   # pCN proposal
+        m = getattr(self.prior, 'mean', 0)   # pCN is prior-reversible only when taken about the prior mean
+        x_star = m + np.sqrt(1-self.scale**2)*(x_t - m) + self.scale*(xi - m)   # pCN proposal
 
         # evaluate target
         loglike_eval_star =  self._loglikelihood(x_star) 
